@@ -302,6 +302,8 @@ class Run(object):
     def _unhelper(self, sdef, got):
         """the value of a child started through amap(F, [0]) arrives as [r]: hand the body r, as if it had yielded the child"""
         g = sdef["g"]
+        if not self._has_helper(sdef):
+            return got          # untouched: the very object asynq handed over (aliasing between receivers must stay visible)
         if g in ("Tup", "Lst") and isinstance(got, (tuple, list)) and len(got) == len(sdef["xs"]):
             out = [self._unhelper(x, y) for x, y in zip(sdef["xs"], got)]
             return tuple(out) if g == "Tup" else out
@@ -310,6 +312,11 @@ class Run(object):
         if g == "T" and self.prog["tasks"][sdef["n"] - 1].get("via") == "amap" and isinstance(got, list) and len(got) == 1:
             return got[0]
         return got
+
+    def _has_helper(self, sdef):
+        if sdef["g"] == "T":
+            return self.prog["tasks"][sdef["n"] - 1].get("via") == "amap"
+        return any(self._has_helper(x) for x in sdef.get("xs", ()))
 
     def probe_reprs(self):
         """formatting any live asynq object is a diagnostic: it must not compute, start or change anything"""
